@@ -6,6 +6,7 @@
 -/
 import Gnet.Spec.ReactorSpec
 import Gnet.Proofs.ReactorBytes
+import Gnet.Spec.ReactorExample
 namespace Gnet.Props.C02
 open Gnet.Reactor
 
@@ -16,5 +17,8 @@ theorem outbound_integrity (s s' : RState) (toks : List Tok) (hn : NamesNodup s)
 
 theorem outbound_init (cfg : Cfg) : InvOut { cfg := cfg } :=
   Proofs.ReactorBytes.outbound_init cfg
+
+/-! Non-vacuity: in the recorded history the OnOpen reply [104, 105] is accepted and handed to the kernel. -/
+example : (Example.after 1).bind Example.bytesView = some [[], [], [104, 105], [104, 105]] := by decide +kernel
 
 end Gnet.Props.C02
